@@ -219,6 +219,17 @@ def build_templates():
                                   params=("sys",))
     TT["as_coeff_unit"] = T(lambda A, p: A["x"].units.as_coeff_unit(), ("x",), cat="unit")
     TT["copy"] = T(lambda A, p: A["x"].copy(), ("x",), cat="copy")
+
+    # an element of a 1-D array: a scalar quantity of its own (NumPy: indexing with an integer returns a scalar, never
+    # a view), also when it is reached by iteration; the result is then mutated in place
+    def _one_d(x):
+        if getattr(x, "ndim", 0) != 1 or x.size < 2:
+            raise rw.Skip
+        return x
+
+    TT["getitem_int"] = T(lambda A, p: _one_d(A["x"])[0], ("x",), cat="copy")
+    TT["getitem_last"] = T(lambda A, p: _one_d(A["x"])[-1], ("x",), cat="copy")
+    TT["iter_first"] = T(lambda A, p: next(iter(_one_d(A["x"]))), ("x",), cat="copy")
     TT["deepcopy"] = T(lambda A, p: copy.deepcopy(A["x"]), ("x",), cat="copy")
     TT["value"] = T(lambda A, p: (A["x"].value, A["x"].v, A["x"].to_ndarray()), ("x",), cat="copy")
     # conversions, in place
@@ -1099,7 +1110,7 @@ class Sim18:
                 self.oracle_c(op, t, twin, copies, p, tgt_ent, before["ents"][tgt_idx])
         # ---------------- result of a copying call, then an in-place call on that result
         if not raised and not self.violations and (op["t"] in COPYING_RESULT or t.cat in ("op", "ufunc", "ufunc_red", "cmp")
-                                                   or op["t"] in ("u_mul_arr", "u_rmul_scalar", "u_rdiv_scalar", "np.histogram", "np.histogram_bins_arr",
+                                                   or op["t"] in ("getitem_int", "getitem_last", "iter_first", "u_mul_arr", "u_rmul_scalar", "u_rdiv_scalar", "np.histogram", "np.histogram_bins_arr",
                                                                 "np.histogram_range_qq", "uconcatenate", "ustack", "np.concatenate",
                                                                 "np.stack", "np.vstack", "np.hstack", "np.where", "np.clip",
                                                                 "np.insert", "np.append", "np.pad", "np.tile", "np.sort",
